@@ -186,6 +186,23 @@ def alias_paths(tree: ast.AST, computed=frozenset()) -> ast.AST:
                     if n_same != 1:
                         continue
                     drop_stmt = False
+                elif len(st.targets) == 1 and names and isinstance(st.value, (ast.Tuple, ast.List)) and st.value.elts and stores.get(names[0].id, 0) == 1 \
+                        and names[0].id not in params and all(
+                            (_attr_path(x.value if isinstance(x, ast.Starred) else x) is not None) or isinstance(x.value if isinstance(x, ast.Starred) else x, (ast.Name, ast.Constant))
+                            for x in st.value.elts):
+                    # v = (*a.b, *a.c)  read exactly once afterwards: the display is read where v is read
+                    v = names[0].id
+                    nloads = sum(1 for s_ in fn.body[i + 1:] for x in ast.walk(s_) if isinstance(x, ast.Name) and x.id == v and isinstance(x.ctx, ast.Load))
+                    total = sum(1 for x in ast.walk(fn) if isinstance(x, ast.Name) and x.id == v and isinstance(x.ctx, ast.Load))
+                    roots = {r_ for x in st.value.elts for r_ in [(_attr_path(x.value if isinstance(x, ast.Starred) else x) or '').split('.')[0]] if r_}
+                    if nloads != 1 or total != 1 or any(stores.get(r_, 0) > (0 if r_ in params else 1) for r_ in roots):
+                        continue
+                    import copy
+                    sub = _PathSubst(v, st.value)
+                    fn.body[i + 1:] = [sub.visit(s_) for s_ in fn.body[i + 1:]]
+                    del fn.body[i]
+                    changed = True
+                    break
                 elif len(st.targets) == 1 and len(paths) == 1 and isinstance(st.value, ast.Name) and st.value.id not in params and stores.get(st.value.id, 0) == 1:
                     # a.b = v   (v a single-assignment local): from here on v and a.b name the same object
                     v, path = st.value.id, paths[0]
@@ -387,6 +404,9 @@ class Desugar(ast.NodeTransformer):
             if isinstance(x, ast.Assign) and len(x.targets) == 1 and isinstance(x.targets[0], ast.Name) and isinstance(x.value, ast.Constant) \
                     and isinstance(x.value.value, str) and self.stores.get(x.targets[0].id) == 1:
                 const_locals[x.targets[0].id] = x.value.value
+        for k_, v_ in getattr(self, 'module_strs', {}).items():
+            if k_ not in self.stores:
+                const_locals.setdefault(k_, v_)
         node = _FormatToFString(const_locals).visit(node)
         try:
             return self.generic_visit(node)
@@ -425,6 +445,17 @@ class Desugar(ast.NodeTransformer):
                 rows = _literal_table(st.value)
                 if rows is not None:
                     local_tables[st.targets[0].id] = rows
+            # D3d: for x in (*A, *B): body   ->  for x in A: body ; for x in B: body     (no break, no else)
+            if isinstance(st, ast.For) and not st.orelse and isinstance(st.iter, (ast.Tuple, ast.List)) and len(st.iter.elts) >= 2 \
+                    and all(isinstance(x, ast.Starred) for x in st.iter.elts) and not any(isinstance(x, ast.Break) for b in st.body for x in ast.walk(b)):
+                for part in st.iter.elts:
+                    lp = ast.For(target=copy.deepcopy(st.target), iter=part.value, body=copy.deepcopy(st.body), orelse=[])
+                    for x in ast.walk(lp):
+                        if not hasattr(x, 'lineno'):
+                            ast.copy_location(x, st)
+                    out.append(ast.copy_location(lp, st))
+                i += 1
+                continue
             # D3a: for x in (a, b, c): body   ->  unrolled copies (no break/continue in the body)
             if isinstance(st, ast.For) and not st.orelse and isinstance(st.target, ast.Name) and self._cells(st.iter) is not None \
                     and not any(isinstance(x, (ast.Break, ast.Continue)) for b in st.body for x in ast.walk(b)) \
@@ -638,6 +669,15 @@ def desugar(tree: ast.Module) -> ast.Module:
                     if rows is not None:
                         tables[s2.targets[0].id] = rows
     d = Desugar(tables, [st.name for st in tree.body if isinstance(st, ast.ClassDef)])
+    # module-level names bound once to a string literal (templates, keywords)
+    mstores = {}
+    for st in tree.body:
+        for x in ast.walk(st) if not isinstance(st, (ast.FunctionDef, ast.ClassDef)) else []:
+            if isinstance(x, ast.Name) and isinstance(x.ctx, ast.Store):
+                mstores[x.id] = mstores.get(x.id, 0) + 1
+    d.module_strs = {st.targets[0].id: st.value.value for st in tree.body
+                     if isinstance(st, ast.Assign) and len(st.targets) == 1 and isinstance(st.targets[0], ast.Name) and isinstance(st.value, ast.Constant)
+                     and isinstance(st.value.value, str) and mstores.get(st.targets[0].id) == 1}
     tree.body = d._body(tree.body)
     # getattr(x, 'const') and immediately applied lambdas everywhere
     tree = _Subst({}).visit(tree)
@@ -645,10 +685,73 @@ def desugar(tree: ast.Module) -> ast.Module:
     return tree
 
 
+def propagate_module_strings(tree: ast.AST) -> ast.AST:
+    """A module-level name bound exactly once to a string literal (a keyword, a template, an encoding name hoisted into a constant) is read as that
+    literal inside the module's functions - unless the function has a parameter/local of the same name."""
+    if not isinstance(tree, ast.Module):
+        return tree
+    counts = {}
+    vals = {}
+    for st in tree.body:
+        if isinstance(st, (ast.FunctionDef, ast.AsyncFunctionDef, ast.ClassDef)):
+            continue
+        for x in ast.walk(st):
+            if isinstance(x, ast.Name) and isinstance(x.ctx, (ast.Store, ast.Del)):
+                counts[x.id] = counts.get(x.id, 0) + 1
+        if isinstance(st, ast.Assign) and len(st.targets) == 1 and isinstance(st.targets[0], ast.Name) and isinstance(st.value, ast.Constant) and isinstance(st.value.value, str):
+            vals[st.targets[0].id] = st.value
+    # names rebound by `global` statements anywhere are left alone
+    for x in ast.walk(tree):
+        if isinstance(x, ast.Global):
+            for nm in x.names:
+                counts[nm] = counts.get(nm, 0) + 2
+    consts = {k: v for k, v in vals.items() if counts.get(k) == 1}
+    if not consts:
+        return tree
+
+    class Sub(ast.NodeTransformer):
+        def __init__(self, shadow):
+            self.shadow = shadow
+
+        def visit_Name(self, node):
+            if isinstance(node.ctx, ast.Load) and node.id in consts and node.id not in self.shadow:
+                return ast.copy_location(ast.Constant(value=consts[node.id].value), node)
+            return node
+
+        def visit_FunctionDef(self, node):
+            a = node.args
+            shadow = set(self.shadow) | {x.arg for x in a.args + a.kwonlyargs + a.posonlyargs}
+            if a.vararg:
+                shadow.add(a.vararg.arg)
+            if a.kwarg:
+                shadow.add(a.kwarg.arg)
+            shadow |= {x.id for x in ast.walk(node) if isinstance(x, ast.Name) and isinstance(x.ctx, (ast.Store, ast.Del))}
+            inner = Sub(shadow)
+            node.body = [inner.visit(b) for b in node.body]
+            return node
+        visit_AsyncFunctionDef = visit_FunctionDef
+
+    top = Sub(set())
+    for st in ast.walk(tree):
+        pass
+    new_body = []
+    for st in tree.body:
+        if isinstance(st, (ast.FunctionDef, ast.AsyncFunctionDef)):
+            new_body.append(top.visit_FunctionDef(st))
+        elif isinstance(st, ast.ClassDef):
+            st.body = [top.visit_FunctionDef(b) if isinstance(b, (ast.FunctionDef, ast.AsyncFunctionDef)) else b for b in st.body]
+            new_body.append(st)
+        else:
+            new_body.append(st)
+    tree.body = new_body
+    return tree
+
+
 def canonicalise(tree: ast.AST, computed_attrs=frozenset()) -> ast.AST:
     tree = Canon().visit(tree)
     ast.fix_missing_locations(tree)
     tree = alias_paths(tree, computed_attrs)
+    tree = propagate_module_strings(tree)
     try:
         tree = desugar(tree)
     except RecursionError:      # pragma: no cover
